@@ -12,9 +12,20 @@ FoldClauses(e) ==
       fold_pixels |-> /\ \A p \in fpx : FoldSource(e.w, e.h, e.mx, e.line, p[1], p[2]) \in px
                       /\ \A q \in px : \E x \in 0..(e.fw - 1), y \in 0..(e.fh - 1) :
                               FoldSource(e.w, e.h, e.mx, e.line, x, y) = q /\ <<x, y>> \in fpx ]
+(* op = "lines": PlayField + PFDrawBeatLines(divisions = e.divs) alone; e.lpx are the non-background pixels as <<x, y, d>>  *)
+(* where d is the division whose colour the pixel has (0: some other colour)                                               *)
+LineClauses(e) ==
+    LET ns == e.notes  c == e.cfg  divs == { e.divs[i] : i \in DOMAIN e.divs }
+        lp == { <<e.lpx[i][1], e.lpx[i][2], e.lpx[i][3]>> : i \in DOMAIN e.lpx }
+        rows == { p[2] : p \in lp } IN
+    [ canvas |-> e.w = CanvasW(ns, c) /\ e.h = CanvasH(ns, c),
+      line_rows |-> rows = VisibleRows(ns, c, e.bl, divs),
+      line_span |-> \A y \in rows : { p[1] : p \in { q \in lp : q[2] = y } } = 0..LineXMax(ns, c),
+      line_colour |-> \A p \in lp : p[2] \in VisibleRows(ns, c, e.bl, divs) => p[3] = RowDivision(ns, c, e.bl, divs, p[2]) ]
 Clauses(e) ==
     IF e.exc # "" THEN [ no_exc |-> FALSE ]
     ELSE IF e.op = "fold" THEN FoldClauses(e)
+    ELSE IF e.op = "lines" THEN LineClauses(e)
     ELSE LET ns == e.notes  c == e.cfg  px == Px(e) IN
     [ canvas |-> e.w = CanvasW(ns, c) /\ e.h = CanvasH(ns, c),
       \* nothing is drawn outside the rectangles the notes are entitled to
